@@ -78,6 +78,7 @@ def make_engine(modules=None, repo=None):
         eng.rec_funcs[name] = RecSpec(name, node, args, ret)
         eng.rec_funcs[name].opaque = opaque
     eng.lemmas = dict(reg["lemmas"])
+    eng.ext_methods = dict(reg.get("ext_methods", {}))
     if any(getattr(c, "uses_marks", False) for c in contracts.values()) or any(d.get("uses_marks") for d in eng.lemmas.values()):
         from . import marks
         if not any(a_.eq(marks.axioms()[0]) for a_ in eng.global_axioms):
